@@ -37,6 +37,59 @@ def run(chk, tier):
     mapping(chk, prog)
     estimate(chk, prog)
     window(chk, prog)
+    key_equality(chk, prog)
+
+
+def key_equality(chk, prog):
+    """"history for chunks of the same type/waveform/phase": the history map's key equality is exactly equality of the three
+    characteristics — decided by instantiating both operands of PartialEq::eq with every combination of variants"""
+    import itertools
+    p = "<%s as core::cmp::PartialEq>::eq" % CC
+    fn = prog.fn(p)
+    a = prog.adts.get(CC)
+    if fn is None or a is None:
+        chk.blind("VN", p, "the history key's equality (or the key type) was not found")
+        return
+    try:
+        t = sym.Evaluator(prog).eval_fn(p, [P("a"), P("b")])
+    except sym.Undecided as e:
+        chk.blind("VN", p, "the history key's equality could not be evaluated: %s" % e, fn.where())
+        return
+    flds = [(f["name"], f["ty"]["adt"] if isinstance(f.get("ty"), dict) and f["ty"].get("adt") else None) for f in a["variants"][0]["fields"]]
+    if any(ty is None or ty not in prog.adts or any(v.get("fields") for v in prog.adts[ty]["variants"]) for _f, ty in flds):
+        chk.blind("VN", p, "the history key is no longer a record of field-less enums: %s" % flds, fn.where())
+        return
+    doms = [prog.adts[ty]["variants"] for _f, ty in flds]
+    combos = list(itertools.product(*[range(len(d)) for d in doms]))
+    if len(combos) ** 2 > 200000:
+        chk.blind("VN", p, "too many key values to enumerate (%d)" % len(combos), fn.where())
+        return
+
+    def sub(n, c):
+        m = {}
+        for (f, ty), d, k in zip(flds, doms, c):
+            m[("fld", P(n), f)] = unit_variant(ty, d[k]["name"])
+            m[("discr", ("fld", P(n), f))] = C(int(d[k]["discr"]), "isize")
+        return m
+    bad, und = [], 0
+    for x in combos:
+        mx = sub("a", x)
+        for y in combos:
+            m = dict(mx)
+            m.update(sub("b", y))
+            r = sym.rebuild(t, m)
+            if r not in (TRUE, FALSE):
+                und += 1
+            elif (r == TRUE) != (x == y):
+                bad.append((x, y))
+    def name(c):
+        return "/".join(d[k]["name"] for d, k in zip(doms, c))
+    okk = not bad and not und
+    chk.ob("VN", p, okk, "two history keys are equal exactly when chunk type, waveform and phase are all equal (%d x %d value pairs instantiated)" % (len(combos), len(combos)) if okk else
+           ("%d of %d pairs undecided" % (und, len(combos) ** 2) if und and not bad else
+            "%d pairs of keys compare wrongly, e.g. %s vs %s: history recorded for one kind of chunk is used for another" % (len(bad), name(bad[0][0]), name(bad[0][1]))),
+           fn.where(), key="key-equality")
+    chk.floor("history key values", len(combos), 72)
 
 
 def mapping(chk, prog):
